@@ -202,7 +202,25 @@ struct Worker {
     child: Child,
     stdin: ChildStdin,
     stdout: ChildStdout,
+    /// deadline of the request in flight, watched by a helper thread that kills the worker when
+    /// it passes (a decode that never returns)
+    deadline: std::sync::Arc<std::sync::Mutex<Option<std::time::Instant>>>,
+    timed_out: std::sync::Arc<std::sync::atomic::AtomicBool>,
+    shutdown: std::sync::Arc<std::sync::atomic::AtomicBool>,
 }
+
+impl Drop for Worker {
+    fn drop(&mut self) {
+        self.shutdown.store(true, std::sync::atomic::Ordering::SeqCst);
+        let _ = self.child.kill();
+        let _ = self.child.wait();
+    }
+}
+
+/// Wall-clock allowance for one decode. The slowest legitimate decode of the check (a mebibyte of
+/// G2 elements) takes about a second on an idle core; the allowance is there to tell "slow" from
+/// "never returns", not to measure.
+const DECODE_DEADLINE_S: u64 = 90;
 
 impl Worker {
     fn spawn() -> Worker {
@@ -216,7 +234,26 @@ impl Worker {
             .unwrap_or_else(|e| crate::harness_error(&format!("cannot spawn decode worker: {}", e)));
         let stdin = child.stdin.take().unwrap();
         let stdout = child.stdout.take().unwrap();
-        Worker { child, stdin, stdout }
+        let deadline = std::sync::Arc::new(std::sync::Mutex::new(None::<std::time::Instant>));
+        let timed_out = std::sync::Arc::new(std::sync::atomic::AtomicBool::new(false));
+        let shutdown = std::sync::Arc::new(std::sync::atomic::AtomicBool::new(false));
+        let pid = child.id();
+        {
+            let (deadline, timed_out, shutdown) = (deadline.clone(), timed_out.clone(), shutdown.clone());
+            std::thread::spawn(move || loop {
+                std::thread::sleep(std::time::Duration::from_millis(250));
+                if shutdown.load(std::sync::atomic::Ordering::SeqCst) {
+                    return;
+                }
+                let due = matches!(*deadline.lock().unwrap_or_else(|e| e.into_inner()), Some(d) if std::time::Instant::now() > d);
+                if due {
+                    timed_out.store(true, std::sync::atomic::Ordering::SeqCst);
+                    let _ = Command::new("kill").arg("-9").arg(pid.to_string()).status();
+                    return;
+                }
+            });
+        }
+        Worker { child, stdin, stdout, deadline, timed_out, shutdown }
     }
 }
 
@@ -229,6 +266,8 @@ pub enum Decoded {
     Err { msg: String, max_alloc: u64, fired: [u32; 4] },
     Panic { loc: String, msg: String },
     Died { how: String },
+    /// no answer within the allowance: the worker was killed by the watchdog
+    Hung,
 }
 
 pub fn decode_in_worker(ty: usize, bytes: &[u8], script: Option<&[ReadOp]>) -> Decoded {
@@ -263,6 +302,7 @@ pub fn decode_in_worker_mode(ty: usize, bytes: &[u8], script: Option<&[ReadOp]>,
                 }
             }
         }
+        *wk.deadline.lock().unwrap_or_else(|e| e.into_inner()) = Some(std::time::Instant::now() + std::time::Duration::from_secs(DECODE_DEADLINE_S));
         let sent = wk.stdin.write_all(&req).is_ok() && wk.stdin.flush().is_ok();
         let mut ok = None;
         if sent {
@@ -293,8 +333,13 @@ pub fn decode_in_worker_mode(ty: usize, bytes: &[u8], script: Option<&[ReadOp]>,
                 }
             }
         }
+        *wk.deadline.lock().unwrap_or_else(|e| e.into_inner()) = None;
         match ok {
             Some(d) => d,
+            None if wk.timed_out.load(std::sync::atomic::Ordering::SeqCst) => {
+                *w = None;
+                Decoded::Hung
+            }
             None => {
                 // the worker died while this case was in flight
                 let how = match wk.child.wait() {
@@ -377,6 +422,7 @@ fn bigvec(o: &mut Outcome, case: &Value) {
         }
         Decoded::Panic { loc, msg } => o.violate("decode-panic", &loc, format!("decoder panicked on {} valid elements behind the length prefix {}: {}", count, prefix, msg)),
         Decoded::Died { how } => o.violate("decode-abort", &site, format!("worker process died on {} valid elements behind the length prefix {} ({})", count, prefix, how)),
+        Decoded::Hung => o.violate("decode-hang", &site, format!("no answer from the decoder within {} s: the decode does not return", DECODE_DEADLINE_S)),
     }
     o.nontrivial = prefix != count;
     o.shape = mix(&[0xB16, ty as u64, count, prefix]);
@@ -738,6 +784,40 @@ impl Prop for C16 {
                         v.push(mk(json!({"k": "allatoms", "len": alen, "sub": sub, "r": mix(&[seed, si as u64, alen as u64])}), Value::Null));
                     }
                 }
+                // every group element at once, and drawn pairs of atoms (a G1 element and its G2
+                // twin, two scalars, ...) with the same kind of substitute
+                {
+                    let grp: Vec<usize> = (0..natoms).filter(|&i| s.trace.atoms[i].kind == AtomKind::Bytes && (s.trace.atoms[i].len == 48 || s.trace.atoms[i].len == 96)).collect();
+                    if grp.len() >= 2 {
+                        for sub in ["identity", "nonsub", "offcurve"] {
+                            v.push(mk(json!({"k": "atoms", "atoms": grp, "sub": sub, "r": mix(&[seed, si as u64, 0xA11])}), Value::Null));
+                        }
+                        // every (G1, G2) pair when there are few, a drawn share otherwise
+                        let g1s: Vec<usize> = grp.iter().cloned().filter(|&i| s.trace.atoms[i].len == 48).collect();
+                        let g2s: Vec<usize> = grp.iter().cloned().filter(|&i| s.trace.atoms[i].len == 96).collect();
+                        let total = g1s.len() * g2s.len();
+                        for &a in &g1s {
+                            for &b2 in &g2s {
+                                if total > 40 && !sch.chance(40, total as u64) {
+                                    continue;
+                                }
+                                v.push(mk(json!({"k": "atoms", "atoms": [a, b2], "sub": "identity", "r": 0}), Value::Null));
+                            }
+                        }
+                    }
+                    let by: Vec<usize> = (0..natoms).filter(|&i| s.trace.atoms[i].kind == AtomKind::Bytes).collect();
+                    if by.len() >= 2 {
+                        for _ in 0..(if tier == Tier::Quick { 6 } else { 40 }) {
+                            let a = by[sch.usize(by.len())];
+                            let b2 = by[sch.usize(by.len())];
+                            if a == b2 {
+                                continue;
+                            }
+                            let sub = *sch.pick(&["identity", "zero", "q", "nonsub", "ones"]);
+                            v.push(mk(json!({"k": "atoms", "atoms": [a, b2], "sub": sub, "r": sch.u64()}), Value::Null));
+                        }
+                    }
+                }
                 // truncation through a reader that hits EOF, extension, random strings, bit flips
                 let len = s.trace.bytes.len();
                 v.push(mk(json!({"k": "trunc", "at": sch.usize(len.max(1))}), json!([["short", 5], ["short", 1]])));
@@ -810,6 +890,7 @@ impl Prop for C16 {
                 }
                 Decoded::Panic { loc, msg } => o.violate("decode-panic", &loc, format!("decoder panicked while decoding JSON as {} with fault {}: {}", s.ty, m, msg)),
                 Decoded::Died { how } => o.violate("decode-abort", &site, format!("worker process died while decoding JSON ({})", how)),
+                Decoded::Hung => o.violate("decode-hang", &site, format!("no answer from the decoder within {} s: the decode does not return", DECODE_DEADLINE_S)),
             }
             o.nontrivial = m["k"] != "none";
             o.shape = mix(&[ty as u64, 0x150, case["sample"].as_u64().unwrap_or(0), case["stream"].as_u64().unwrap_or(0), crate::hash_str(&m.to_string())]);
@@ -871,6 +952,9 @@ impl Prop for C16 {
                     format!("worker process died while decoding ({}); allocation requests above {} bytes are refused, which aborts", how, ALLOC_CAP),
                 );
             }
+            Decoded::Hung => {
+                o.violate("decode-hang", &site, format!("no answer from the decoder within {} s: the decode does not return", DECODE_DEADLINE_S));
+            }
         }
         o.nontrivial = m["k"].as_str().unwrap_or("none") != "none" || script.is_some();
         o.shape = mix(&[
@@ -911,6 +995,6 @@ impl Prop for C16 {
         ]
     }
     fn required_probes(&self, _tier: Tier) -> Vec<&'static str> {
-        vec!["probe.decoded_ok", "probe.decode_refused", "fault.read.short", "fault.read.eintr", "fault.read.eof", "fault.read.error", "fault.wire.seqlen", "fault.wire.trunc", "fault.json.string", "fault.json.number", "probe.json_decode_returned", "fault.wire.allatoms", "fault.wire.long-sequence", "probe.long_sequence_refused"]
+        vec!["probe.decoded_ok", "probe.decode_refused", "fault.read.short", "fault.read.eintr", "fault.read.eof", "fault.read.error", "fault.wire.seqlen", "fault.wire.trunc", "fault.json.string", "fault.json.number", "probe.json_decode_returned", "fault.wire.allatoms", "fault.wire.atoms", "fault.wire.long-sequence", "probe.long_sequence_refused"]
     }
 }
